@@ -110,7 +110,7 @@ Section Transparency.
       outcome and executes the wrapped bodies exactly as the twin does *)
   Theorem rec_transparent : forall c env s, agrees_plain (plain_exec c env) (rec_exec P c env s).
   Proof.
-    induction c as [e|ty| |cf body IHb args kwargs k IHk|cf body IHb args kwargs k IHk|c1 IH1 h IHh
+    induction c as [e|ty| |cf body IHb args kwargs k IHk|cf body IHb args kwargs k IHk|c1 IH1 h IHh|c1 IHs1 k IHsk
                     |k IHk|k IHk|b k IHk|key e k IHk|key k IHk]; intros env s; cbn [rec_exec plain_exec].
     - reflexivity.
     - reflexivity.
@@ -118,6 +118,11 @@ Section Transparency.
     - apply bind_val_plain; [apply rec_in_call_plain; intros; apply IHb|intros; apply IHk].
     - apply bind_val_plain; [apply rec_out_call_plain; intros; apply IHb|intros; apply IHk].
     - apply bind_exn_plain; [apply IH1|intros; apply IHh].
+    - specialize (IHs1 env (set_icpt false s)). unfold agrees_plain in IHs1.
+      destruct (rec_exec P c1 env (set_icpt false s)) as [[o1 s1] l1]. destruct (plain_exec c1 env) as [po1 pl1].
+      inversion IHs1; subst. specialize (IHsk env (set_icpt (icpt s) s1)). unfold agrees_plain, prepend in *.
+      destruct (rec_exec P k env _) as [[o2 s2] l2]. destruct (plain_exec k env) as [po2 pl2].
+      inversion IHsk; subst. rewrite trace_app. reflexivity.
     - pose proof (discard_trace s) as D. destruct (discard s) as [s1 la]. apply prepend_plain; [exact D|apply IHk].
     - apply IHk.
     - apply IHk.
@@ -202,6 +207,10 @@ Lemma step_icpt_flip s s1 l :
   icpt s = false -> step_inv (set_icpt true s) s1 l -> step_inv s (set_icpt false s1) l.
 Proof. intros Ic [I D L]. constructor; cbn in *; auto. Qed.
 
+Lemma step_icpt_any b s s1 l :
+  step_inv (set_icpt b s) s1 l -> step_inv s (set_icpt (icpt s) s1) l.
+Proof. intros [I D L]. constructor; cbn in *; auto. Qed.
+
 Ltac step_chain :=
   cbn [app];
   repeat first
@@ -285,7 +294,7 @@ Section Steps.
 
   Theorem rec_exec_step : forall c env s, step_res s (rec_exec P c env s).
   Proof.
-    induction c as [e|ty| |cf body IHb args kwargs k IHk|cf body IHb args kwargs k IHk|c1 IH1 h IHh
+    induction c as [e|ty| |cf body IHb args kwargs k IHk|cf body IHb args kwargs k IHk|c1 IH1 h IHh|c1 IHs1 k IHsk
                     |k IHk|k IHk|b k IHk|key e k IHk|key k IHk]; intros env s; cbn [rec_exec].
     - apply step_refl.
     - apply step_refl.
@@ -293,6 +302,10 @@ Section Steps.
     - apply bind_val_step; [apply rec_in_call_step; intros; apply IHb|intros; apply IHk].
     - apply bind_val_step; [apply rec_out_call_step; intros; apply IHb|intros; apply IHk].
     - apply bind_exn_step; [apply IH1|intros; apply IHh].
+    - specialize (IHs1 env (set_icpt false s)). unfold step_res in IHs1.
+      destruct (rec_exec P c1 env (set_icpt false s)) as [[o1 s1] l1]. apply step_icpt_any in IHs1.
+      specialize (IHsk env (set_icpt (icpt s) s1)). unfold prepend, step_res in *.
+      destruct (rec_exec P k env _) as [[o2 s2] l2]. eapply step_trans; eauto.
     - pose proof (discard_step s) as Ds. destruct (discard s) as [s1 la]. cbn [fst snd] in Ds.
       specialize (IHk env s1). unfold prepend, step_res in *. destruct (rec_exec P k env s1) as [[o s2] l].
       eapply step_trans; eauto.
@@ -598,7 +611,7 @@ Section Preserve.
 
   Theorem rec_exec_keeps : forall c env, keeps (rec_exec P c env).
   Proof.
-    induction c as [e|ty| |cf body IHb args kwargs k IHk|cf body IHb args kwargs k IHk|c1 IH1 h IHh
+    induction c as [e|ty| |cf body IHb args kwargs k IHk|cf body IHb args kwargs k IHk|c1 IH1 h IHh|c1 IHs1 k IHsk
                     |k IHk|k IHk|b k IHk|key e k IHk|key k IHk]; intros env s Qs; cbn [rec_exec]; try exact Qs.
     - pose proof (rec_in_call_keeps cf (map (eval env) args) (eval_kw env kwargs) _
                     (IHb (body_env (map (eval env) args) (eval_kw env kwargs))) s Qs) as H.
@@ -612,6 +625,9 @@ Section Preserve.
       destruct (rec_exec P k (env ++ [v]) s1) as [[o2 s2] l2]. exact H2.
     - pose proof (IH1 env s Qs) as H. unfold bind_exn. destruct (rec_exec P c1 env s) as [[o s1] l1]. cbn [fst snd] in H.
       destruct o as [v|e|]; auto. pose proof (IHh env s1 H) as H2. destruct (rec_exec P h env s1) as [[o2 s2] l2]. exact H2.
+    - pose proof (IHs1 env _ (Q_icpt false _ Qs)) as H. destruct (rec_exec P c1 env (set_icpt false s)) as [[o1 s1] l1].
+      cbn [fst snd] in H. pose proof (IHsk env _ (Q_icpt (icpt s) _ H)) as H2. unfold prepend.
+      destruct (rec_exec P k env _) as [[o2 s2] l2]. exact H2.
     - pose proof (Q_discard _ Qs) as H. destruct (discard s) as [s1 la]. cbn [fst] in H.
       pose proof (IHk env s1 H) as H2. unfold prepend. destruct (rec_exec P k env s1) as [[o s2] l]. exact H2.
     - apply IHk. apply Q_force. exact Qs.
@@ -723,7 +739,7 @@ Section WriteKeys.
     | Ret _ | Raise _ | Interrupt => True
     | Inp cf body _ _ k => sites_ok body /\ sites_ok k
     | Out cf body _ _ k => (forall n, Q (okey_output (o_alias cf) n) /\ Q (okey_result (o_alias cf) n)) /\ sites_ok body /\ sites_ok k
-    | Try c1 h => sites_ok c1 /\ sites_ok h
+    | Try c1 h | Spawn c1 h => sites_ok c1 /\ sites_ok h
     | Discard k | Force k | Enable _ k | PlayData _ k => sites_ok k
     | RecordData key _ k => Q key /\ sites_ok k
     end.
@@ -787,7 +803,7 @@ Section WriteKeys.
 
   Theorem rec_exec_wkeys : forall c env s, sites_ok c -> wres (rec_exec P c env s).
   Proof.
-    induction c as [e|ty| |cf body IHb args kwargs k IHk|cf body IHb args kwargs k IHk|c1 IH1 h IHh
+    induction c as [e|ty| |cf body IHb args kwargs k IHk|cf body IHb args kwargs k IHk|c1 IH1 h IHh|c1 IHs1 k IHsk
                     |k IHk|k IHk|b k IHk|key e k IHk|key k IHk]; intros env s Ok; cbn [rec_exec sites_ok] in *.
     - apply wkeys_nil.
     - apply wkeys_nil.
@@ -809,6 +825,10 @@ Section WriteKeys.
     - destruct Ok as [O1 Oh]. pose proof (IH1 env s O1) as H. unfold bind_exn, wres in *.
       destruct (rec_exec P c1 env s) as [[o s1] l1]. destruct o as [v|e|]; auto.
       pose proof (IHh env s1 Oh) as H2. destruct (rec_exec P h env s1) as [[o2 s2] l2]. apply wkeys_app; auto.
+    - destruct Ok as [O1 Ok2]. pose proof (IHs1 env (set_icpt false s) O1) as H. unfold wres in H.
+      destruct (rec_exec P c1 env (set_icpt false s)) as [[o1 s1] l1].
+      pose proof (IHsk env (set_icpt (icpt s) s1) Ok2) as H2. unfold prepend, wres in *.
+      destruct (rec_exec P k env _) as [[o2 s2] l2]. apply wkeys_app; auto.
     - pose proof (wkeys_discard s) as D. destruct (discard s) as [s1 la]. cbn [snd] in D.
       pose proof (IHk env s1 Ok) as H2. unfold prepend, wres in *. destruct (rec_exec P k env s1) as [[o s2] l].
       apply wkeys_app; auto.
